@@ -194,6 +194,20 @@ Definition judge (p : str) (sfx : option str) (rules : list rule) (expires : lis
         end
       else match cobs_log o, ent, life with
            | _ :: _, Some e, Some l =>
+             (* the origin was asked and failed (error status or no answer), and the client was given the stored
+                representation instead: allowed only inside lifetime + the stale allowances that response granted
+                (the most generous reading: counted from the end of the lifetime) *)
+             let opt0 (x : option Z) := match x with Some v => v | None => 0 end in
+             let allow := Z.max (opt0 (directive_int (se_hdrs e) (bytes "stale-if-error"))) (opt0 (directive_int (se_hdrs e) (bytes "stale-while-revalidate"))) in
+             let origin_failed := match lr with
+                                  | Some r => (400 <=? rs_status r) && negb (str_eqb (rs_body r) (se_body e))
+                                  | None => true
+                                  end in
+             let served_stored := is_get && plain && (cobs_status o =? se_status e) && str_eqb (cobs_body o) (se_body e)
+                                  && nonempty (se_body e) && (se_status e =? 200) in
+             if origin_failed && served_stored && (l + allow <=? age) && negb (existsb (str_eqb key) (w_unsure w))
+             then verdict false "after a failed revalidation the stored response was served although its lifetime and every stale allowance it granted had passed"
+             else
              if (age <? l) && on_disk && plain && negb (must_not_cache_spec strips_auth q (mkResp (se_status e) (se_hdrs e) (se_body e)))
                 && (se_status e =? 200) && nonempty (se_body e)
              then verdict false "the origin was contacted although the stored entry was still fresh" else v_ok
